@@ -249,6 +249,33 @@ func c15Run(w *W, idx int) {
 			}})
 		}
 	}
+	// ill-typed bindings: a boolean variable bound to nil or to a number. Both programs are the same tree, so they fail or
+	// succeed alike (engine against engine; no oracle for what an ill-typed evaluation should give is involved)
+	if len(bs) > 0 {
+		var bools []string
+		tree.Walk(func(n *Node) {
+			if n.Kind == KVar && n.Ty == TBool {
+				bools = append(bools, n.Name)
+			}
+		})
+		if len(bools) > 0 {
+			b := Binding{Vals: map[string]interface{}{}}
+			for k, v := range bs[0].Vals {
+				b.Vals[k] = v
+			}
+			if r.Intn(2) == 0 {
+				for _, n := range bools {
+					b.Vals[n] = true // nothing decides an and, so the last operands are reached
+				}
+			}
+			b.Vals[bools[len(bools)-1]] = []interface{}{nil, int64(5), "s"}[r.Intn(3)]
+			if r.Intn(2) == 0 {
+				b.Vals[bools[r.Intn(len(bools))]] = nil
+			}
+			bs = append(bs, b)
+			w.Inc("ill_typed_bindings")
+		}
+	}
 	for _, o := range []OptSet{OptNone, OptAll} {
 		pcfg := cfgFor(tree, o, undefinedMode)
 		pcc := buildConfig(pcfg, nil)
